@@ -17,6 +17,8 @@ uint8_t m_has_pd, m_pd, m_has_st, m_has_ost, m_has_nsn, m_has_begin, m_has_end, 
 int64_t m_st, m_ost; int32_t m_nsn, m_begin, m_end, m_hbi;
 uint8_t m_trid[2], m_trid_n, m_sci[2], m_sci_n, m_tci[2], m_tci_n;
 int n_factory, n_deliver, n_deleted; uint32_t deliver_seq;
+uint32_t m_seq;     /* MsgSeqNum of the abstract message (returned by the fast_atoi<unsigned> cut point of the abstract-message builds) */
+uint32_t st_atoi_seq(void *str, uint8_t term) { return m_seq; }
 /* outbound recorder */
 int out_n, out_bad; static int gen_pending;
 uint32_t out_kind[VF_OUTMAX], out_a[VF_OUTMAX], out_b[VF_OUTMAX], out_custom[VF_OUTMAX]; uint8_t out_noinc[VF_OUTMAX], out_slen[VF_OUTMAX], out_s0[VF_OUTMAX], out_s1[VF_OUTMAX];
